@@ -196,6 +196,13 @@ def check_tp(ctx, agg, rec):
         c.cmp('mass_fast(%s, geo=None)' % tagd, lambda: assemble.mass_fast(kvs), M)
         c.cmp('stiffness_fast(%s, geo=None)' % tagd, lambda: assemble.stiffness_fast(kvs), K)
         c.cmp('mass(%s, geo=None)' % tagd, lambda: assemble.mass(kvs, format='csc'), M)
+        # the same space on a tiny parameter domain (all knots scaled by 2^-34, exact in binary floating point): the
+        # scaling laws M(s kvs) = s^d M(kvs), K(s kvs) = s^(d-2) K(kvs) hold exactly -- there every two knot vectors of
+        # equal degree and length compare equal under the tolerant KnotVector.__eq__ although their breakpoints differ
+        sc = 2.0 ** -34
+        kvs_s = tuple(bspline.KnotVector(np.asarray(kv.kv, dtype=float) * sc, kv.p) for kv in kvs)
+        c.cmp('mass(%s, geo=None, tiny domain)' % tagd, lambda: dense(assemble.mass(kvs_s)) / sc ** d, M)
+        c.cmp('stiffness(%s, geo=None, tiny domain)' % tagd, lambda: dense(assemble.stiffness(kvs_s)) / sc ** (d - 2), K)
         geo0 = geometry.identity(kvs)
         c.cmp('mass(%s, identity geometry)' % tagd, lambda: assemble.mass(kvs, geo0), M)
         c.cmp('stiffness(%s, identity geometry)' % tagd, lambda: assemble.stiffness(kvs, geo0), K)
@@ -315,12 +322,12 @@ def run(ctx):
     agg = Agg(ctx)
     if not ctx.thorough:
         runs = [('sym', dict(Tier='quick', Degrees={0, 1, 2, 3}, Phases={'sym', 'asym'}, TpIds={1}), 4),
-                ('tp', dict(Tier='quick', Degrees={0}, Phases={'tp'}, TpIds={1, 3, 4, 5, 6, 8}), 4)]
+                ('tp', dict(Tier='quick', Degrees={0}, Phases={'tp'}, TpIds={1, 3, 4, 5, 6, 8, 10}), 4)]
     else:
         runs = [('sym01', dict(Tier='thorough', Degrees={0, 1, 2}, Phases={'sym', 'asym'}, TpIds={1}), 4),
                 ('sym3', dict(Tier='thorough', Degrees={3}, Phases={'sym', 'asym'}, TpIds={1}), 4),
                 ('sym4', dict(Tier='thorough', Degrees={4}, Phases={'sym', 'asym'}, TpIds={1}), 4),
-                ('tp', dict(Tier='thorough', Degrees={0}, Phases={'tp'}, TpIds={1, 2, 3, 4, 5, 6, 7, 8, 9}), 4)]
+                ('tp', dict(Tier='thorough', Degrees={0}, Phases={'tp'}, TpIds={1, 2, 3, 4, 5, 6, 7, 8, 9, 10}), 4)]
 
     def one(item):
         name, consts, workers = item
